@@ -52,8 +52,8 @@ Gt(a, b) == Lt(b, a)
 Ge(a, b) == Le(b, a)
 Ne(a, b) == a # b
 
-Min(a, b) == IF Le(a, b) THEN a ELSE b
-Max(a, b) == IF Le(a, b) THEN b ELSE a
+RMin(a, b) == IF Le(a, b) THEN a ELSE b
+RMax(a, b) == IF Le(a, b) THEN b ELSE a
 
 \* where the operations are defined
 AddDefined(a, b) == ~(IsInf(a) /\ IsInf(b) /\ a # b)              \* inf + -inf undefined
